@@ -372,10 +372,13 @@ pub fn boundary_units() -> Vec<Unit> {
     out
 }
 
-/// `n` random valid worlds (all features on)
+/// `n` random valid worlds (all features on), generated on `threads` threads
+/// (each world has its own forked generator, so the result does not depend on
+/// the thread count)
 pub fn random_units(rng: &mut Rng, n: usize, stats: &mut (u64, u64)) -> Vec<Unit> {
-    let mut out = vec![];
-    for i in 0..n {
+    let forks: Vec<Rng> = (0..n).map(|i| rng.fork(i as u64)).collect();
+    let threads = std::thread::available_parallelism().map(|x| x.get()).unwrap_or(4).min(16).min(n.max(1));
+    let one = |i: usize, mut r: Rng| -> (Option<Unit>, u64) {
         let cfg = witgen::Cfg {
             resources: true,
             async_: true,
@@ -389,20 +392,32 @@ pub fn random_units(rng: &mut Rng, n: usize, stats: &mut (u64, u64)) -> Vec<Unit
             max_params: 6,
             ..Default::default()
         };
-        let mut r = rng.fork(i as u64);
         match witgen::generate_valid(&mut r, &cfg) {
-            Some((w, _resolve, _id, discarded)) => {
-                stats.1 += discarded as u64;
-                match Unit::from_wit(&format!("random-{i}"), &w.wit) {
-                    Ok(mut u) => {
-                        u.tags = w.tags.iter().cloned().collect();
-                        stats.0 += 1;
-                        out.push(u)
-                    }
-                    Err(_) => stats.1 += 1,
+            Some((w, _resolve, _id, discarded)) => match Unit::from_wit(&format!("random-{i}"), &w.wit) {
+                Ok(mut u) => {
+                    u.tags = w.tags.iter().cloned().collect();
+                    (Some(u), discarded as u64)
                 }
-            }
-            None => stats.1 += 40,
+                Err(_) => (None, discarded as u64 + 1),
+            },
+            None => (None, 40),
+        }
+    };
+    let results: Vec<Vec<(usize, Option<Unit>, u64)>> = if threads <= 1 {
+        vec![forks.into_iter().enumerate().map(|(i, r)| { let (u, d) = one(i, r); (i, u, d) }).collect()]
+    } else {
+        crate::harness::parallel(threads, |t| {
+            forks.iter().enumerate().filter(|(i, _)| i % threads == t).map(|(i, r)| { let (u, d) = one(i, r.clone()); (i, u, d) }).collect()
+        })
+    };
+    let mut all: Vec<(usize, Option<Unit>, u64)> = results.into_iter().flatten().collect();
+    all.sort_by_key(|x| x.0);
+    let mut out = vec![];
+    for (_, u, d) in all {
+        stats.1 += d;
+        if let Some(u) = u {
+            stats.0 += 1;
+            out.push(u);
         }
     }
     out
